@@ -84,7 +84,8 @@ class Ctx:
             for o in outputs:
                 try: os.remove(os.path.join(ROOT, o))
                 except FileNotFoundError: pass
-            rc, so, se = sh(["go", "run", "./extract", what, os.path.realpath(REPO), ROOT], cwd=GO, env=GOENV, timeout=600)
+            # every extractor is its own package (go/extract/<what>/) so that one cannot break another
+            rc, so, se = sh(["go", "run", "./extract/" + what, what, os.path.realpath(REPO), ROOT], cwd=GO, env=GOENV, timeout=600)
         if rc != 0:
             self.log("extract %s failed:\n%s%s" % (what, so, se))
         return rc == 0, so + se
